@@ -377,6 +377,43 @@ func (g *gstate) apply(cfg *ipa.IPAConfig, o *gop, e ev, rnd *prg) {
 			}
 			heap[i] = applyRep(base, []string{"norm", "proj", "flip", "projflip"}[i%4], rnd)
 		}
+		// o.D > 0: structured Z coordinates - their PRODUCT is one although the elements are not normalised
+		// (1: every Z = -1; 2: reciprocal pairs lambda, 1/lambda; 3: random Z's, the last cell compensates the product of the others)
+		if o.D > 0 && n >= 2 {
+			setZ := func(i int, z *big.Int) {
+				a := affineOf(&heap[i])
+				l := fpFromBig(z)
+				var x, y fp.Element
+				x.Mul(&a.X, &l)
+				y.Mul(&a.Y, &l)
+				heap[i] = banderwagon.VerifFromCoords(x, y, l)
+			}
+			prod := big.NewInt(1)
+			for i := 0; i < n; i++ {
+				var z *big.Int
+				switch o.D {
+				case 1:
+					z = new(big.Int).Sub(modP, big.NewInt(1))
+				case 2:
+					if i%2 == 0 {
+						z = rnd.big(250)
+						z.Add(z, big.NewInt(2))
+						prod = z
+					} else {
+						z = new(big.Int).ModInverse(prod, modP)
+					}
+				default:
+					if i < n-1 {
+						z = rnd.big(250)
+						z.Add(z, big.NewInt(2))
+						prod = mulm(prod, z)
+					} else {
+						z = new(big.Int).ModInverse(prod, modP)
+					}
+				}
+				setZ(i, z)
+			}
+		}
 		if o.B > 0 && o.B-1 < n {
 			x, y, _ := banderwagon.VerifCoords(&heap[o.B-1])
 			heap[o.B-1] = banderwagon.VerifFromCoords(x, y, fp.Zero())
